@@ -28,6 +28,10 @@ def _writeSinglePotential(pot, minr, maxr, gridPoints, out):
     if gridPoints == 1:
       # a table of a single row (nr = 2): minr == maxr == cutoff
       r = minr
+    elif n == gridPoints:
+      # the last row is the maximum separation itself: the sum below may come out one unit in the last place
+      # above it, which is outside a potential that ends there (a table-form, a range '>cutoff')
+      r = maxr
     else:
       r = minr + float(n-1)* (maxr - minr) / (float(gridPoints) -1)
     energy = pot.energy(r)
